@@ -567,7 +567,10 @@ def m_grad(eng, callee, args):
 # --- rng construction ---------------------------------------------------------------------------
 @model(r"^<rand::prelude::SmallRng as rand::SeedableRng>::from_os_rng$|^<.*SmallRng as .*SeedableRng>::from_os_rng$", "SmallRng::from_os_rng: generator with an OS-entropy state (opaque)")
 def m_from_os_rng(eng, callee, args):
-    return Struct("SmallRng", ["seed"], [Opaque("os entropy")])
+    ctx = eng.ctx
+    k = ctx.counters.get("os_entropy_request", 0)
+    ctx.counters["os_entropy_request"] = k + 1
+    return Struct("SmallRng", ["seed"], [Opaque("os entropy request #%d" % k)])
 
 
 @model(r"^<rand::prelude::SmallRng as rand::SeedableRng>::seed_from_u64$|^<.*SmallRng as .*SeedableRng>::seed_from_u64$", "SmallRng::seed_from_u64(s): generator identified by its seed")
